@@ -10,7 +10,7 @@ import ast
 from dataclasses import dataclass, field
 from typing import Dict, List, Optional, Set, Tuple
 
-from ..dispatch import find_chains
+from ..dispatch import find_chains, resolve_subject
 from ..index import AnalysisError, dotted
 from ..report import Finding, RuleResult
 
@@ -143,10 +143,15 @@ def rule_fields(ctx, prop: str) -> List[RuleResult]:
         csubj = sp.chain_subject or sp.subjects[0]
         cadt_mod = adts.adt_for(sp.chain_adt, f.module) if sp.chain_adt else adtmod
         cadt_key = next(k for k, v in adts.mods.items() if v is cadt_mod)
+        subjects = list(sp.subjects)
+        if len(subjects) == 1 and not sp.chain_subject:
+            # a single dispatched node: its variable's name is a hint (it may have been renamed)
+            csubj = resolve_subject(f, adts, csubj, cadt_key, sp.sum)
+            subjects = [csubj]
         chains = [ch for ch in find_chains(f, adts) if ch.subject == csubj]
         chains = [ch for ch in chains if any(a == cadt_key and cadt_mod.ctors[c].sum == sp.sum for a, c in ch.covered())]
         if not chains:
-            raise AnalysisError(f"anchor vanished: dispatch on `{sp.subjects[0]}` over {sp.adt}.{sp.sum} in {sp.qualname}")
+            raise AnalysisError(f"anchor vanished: dispatch on `{csubj}` over {sp.adt}.{sp.sum} in {sp.qualname}")
         # statements executed before the chain (common prelude) count as reads too
         for ch in chains:
             prelude: List[ast.stmt] = []
@@ -170,7 +175,7 @@ def rule_fields(ctx, prop: str) -> List[RuleResult]:
                         flds = [x for x in flds if x.type in sp.only_kinds]
                     if flds:
                         res.nontrivial += 1
-                    for subj in sp.subjects:
+                    for subj in subjects:
                         reads = _reads(case.body, subj) | _reads([ast.Expr(value=case.test)], subj)
                         handed = _whole_passed(case.body, subj)
                         # a helper that receives the whole node may read its fields
@@ -199,5 +204,5 @@ def rule_fields(ctx, prop: str) -> List[RuleResult]:
                                         + ("— the printer drops it" if sp.rule == "PRINTFIELDS" else ("— accesses made below it are invisible to every commutativity / bounds / race check" if sp.rule == "EFFFIELDS" else "— nodes differing only in it are treated as equal")),
                                     )
                                 )
-                    res.sample(f"{sp.qualname} case {K}: fields {[x.name for x in flds]} all read from {sp.subjects}")
+                    res.sample(f"{sp.qualname} case {K}: fields {[x.name for x in flds]} all read from {subjects}")
     return list(results.values())
